@@ -136,6 +136,16 @@ def handle (s : Sexp) : D String :=
         | .ok tr => showPTree tr
         | .error e => "ERR " ++ e.tag
       pure (m ++ " @@ " ++ showT (docRead d (toToks elems)))
+  | .list [.atom "accept", pos, name] => do
+      let pname ← decStr pos
+      match Position.all.find? (fun p => (toString (repr p)).endsWith pname) with
+      | none => pure "ERR position"
+      | some p =>
+        match acceptsAtom p (← decStr name) with
+        | .ok r => pure s!"ok {Sexp.quote r.name} {r.shift} {if r.initially then 1 else 0} {if r.future then 1 else 0}"
+        | .error e => pure ("rej " ++ e.tag)
+  | .list [.atom "theoryguard", neg, cons] => do
+      pure s!"{telBodyAccepted (← decBool neg) (← decBool cons)} {delBodyAccepted (← decBool neg) (← decBool cons)}"
   | s => .error s!"unknown command: {s.toStr}"
 
 partial def loop (inp : IO.FS.Stream) (out : IO.FS.Stream) : IO Unit := do
